@@ -236,18 +236,52 @@ fn inprogress_inner(c: &InProgressCase) -> Result<CaseReport, Stop> {
     let addr = loopback(port);
     // the helper accepts the filler after the hint delay: from then on the queue has room and
     // the retransmitted SYN (about 1 s later) completes the connection
-    let spawn_helper = |lfd: i32, delay: u16| {
+    let helper_done = std::sync::Arc::new(std::sync::atomic::AtomicBool::new(!c.full));
+    let hd = helper_done.clone();
+    let spawn_helper = move |lfd: i32, delay: u16| {
+        let hd = hd.clone();
         std::thread::spawn(move || {
             std::thread::sleep(std::time::Duration::from_micros(delay as u64));
-            libc_accept(lfd)
+            let r = libc_accept(lfd);
+            hd.store(true, std::sync::atomic::Ordering::SeqCst);
+            r
         })
+    };
+    // A blocking connect that is parked in an untimed wait although its connection is established - the
+    // filler has been accepted and a completed connection (it can only be this one) waits in the listener's
+    // queue - will not come back by itself when the peer stays silent: the harness then accepts it and
+    // sends a byte, and the case is reported.
+    let lfd = l.fd();
+    let watch = |helper_done: std::sync::Arc<std::sync::atomic::AtomicBool>| {
+        HangWatch::start(
+            std::time::Duration::from_millis(2500),
+            move || {
+                if !helper_done.load(std::sync::atomic::Ordering::SeqCst) {
+                    return false;
+                }
+                let mut pfd = libc::pollfd { fd: lfd, events: libc::POLLIN, revents: 0 };
+                unsafe { libc::poll(&mut pfd, 1, 0) == 1 && pfd.revents & libc::POLLIN != 0 }
+            },
+            move || unsafe {
+                let a = libc::accept(lfd, core::ptr::null_mut(), core::ptr::null_mut());
+                if a >= 0 {
+                    libc::write(a, b"!".as_ptr().cast(), 1);
+                    libc::close(a);
+                }
+            },
+        )
     };
     let blocking_shape = if c.full { "queue full, peer accepts later" } else { "listener has room" };
     if c.cont == 2 {
         let helper = if c.full { Some(spawn_helper(l.fd(), c.accept_delay_us)) } else { None };
         sc::verif::log_begin();
+        let w = watch(helper_done.clone());
         let r = no_panic("TcpStream::connect", || TcpStream::connect(&addr));
+        let stuck = w.finish();
         let log = sc::verif::log_end();
+        if let Some(wait) = stuck {
+            return Err(stop_fail("TcpStream::connect|never-completes|parked in an untimed wait although the connection is established", format!("blocking connect ({blocking_shape}) sat in {wait} while the completed connection was waiting in the listener's queue; it came back only after the harness accepted it and sent a byte")));
+        }
         let acc = helper.map(|h| h.join().expect("helper"));
         let s = r?.map_err(|e| unexpected("TcpStream::connect", &e, blocking_shape))?;
         rep.class_if(blocked_cycles(&log, sc::nr::CONNECT, libc::EINPROGRESS) > 0, "connect-waited-in-ppoll");
@@ -292,8 +326,13 @@ fn inprogress_inner(c: &InProgressCase) -> Result<CaseReport, Stop> {
                 } else {
                     let helper = if c.full { Some(spawn_helper(l.fd(), c.accept_delay_us)) } else { None };
                     sc::verif::log_begin();
+                    let w = watch(helper_done.clone());
                     let r = no_panic("TcpStreamInProgress::connect_blocking", || p.connect_blocking());
+                    let stuck = w.finish();
                     let log = sc::verif::log_end();
+                    if let Some(wait) = stuck {
+                        return Err(stop_fail("TcpStreamInProgress::connect_blocking|never-completes|parked in an untimed wait although the connection is established", format!("connect_blocking ({blocking_shape}) sat in {wait} while the completed connection was waiting in the listener's queue; it came back only after the harness accepted it and sent a byte")));
+                    }
                     let acc = helper.map(|h| h.join().expect("helper"));
                     match r? {
                         Ok(s) => {
